@@ -51,7 +51,8 @@ def hopByHopBase : List Str := Generated.hopByHop.map String.toList
 
 /-- hopByHopHeaders: the fixed set plus the fields named by every Connection field line -/
 def hopByHopHeaders (h : Header) : List Str :=
-  hopByHopBase ++ (Header.values h sConnection).flatMap trimmedCSVCanonical
+  -- (fieldNameSeq: connection options are tokens, the list is split at every comma)
+  hopByHopBase ++ (Header.values h sConnection).flatMap fun line => (fieldNames line).map canonicalHeaderKey
 
 /-- removeHopByHopHeaders (`delete(resp.Header, hdr)`: exact key, no canonicalisation) -/
 def removeHopByHop (h : Header) : Header :=
